@@ -844,7 +844,7 @@ class CallMixin:
                 return _c.copy(recv)
             try:
                 hash_ok = all(_h(x) for x in args) or m in (
-                    "append", "extend", "insert", "update", "index", "count", "join", "get", "setdefault", "intersection",
+                    "append", "extend", "insert", "update", "index", "count", "join", "get", "setdefault", "pop", "intersection",
                     "union", "difference", "issubset", "issuperset", "isdisjoint", "symmetric_difference",
                     "difference_update", "intersection_update")
                 if not hash_ok:
